@@ -219,8 +219,8 @@ def parts(tier):
             name="history",
             evaluate=evaluate,
             strategy=lambda: strategy(14 if tier == "quick" else 30),
-            budget={"quick": 400, "thorough": 12000},
-            min_nontrivial={"quick": 100, "thorough": 3000},
+            budget={"quick": 400, "thorough": 60000},
+            min_nontrivial={"quick": 100, "thorough": 15000},
             summarize=summarize,
         )
     ]
